@@ -166,7 +166,7 @@ func axisRules(c *props.Ctx, p *c09path, dead map[*ssa.Call]bool) *axisOutcome {
 		}
 	}
 	sp := c.P.SSAPkg(pkgRel)
-	for _, fn := range c.P.FuncsOf(sp) {
+	for _, fn := range sortedFuncs(c, sp) {
 		if c.P.IsControl(fn.Pos()) && strings.HasPrefix(fn.Name(), "verifControlAxis") {
 			fns = append(fns, fn)
 		}
@@ -202,7 +202,7 @@ func axisRules(c *props.Ctx, p *c09path, dead map[*ssa.Call]bool) *axisOutcome {
 		e.analyse(fn)
 	}
 	// report sinks
-	sort.SliceStable(e.sinks, func(i, j int) bool { return e.sinks[i].pos < e.sinks[j].pos })
+	sort.SliceStable(e.sinks, func(i, j int) bool { return posLess(c.P.Fset, e.sinks[i].pos, e.sinks[j].pos) })
 	n := 0
 	for _, fn := range order {
 		if !c.P.IsControl(fn.Pos()) {
